@@ -68,6 +68,31 @@ fn fixed_programs() -> Vec<Block> {
     ]
 }
 
+/// raw texts outside the fragment's alphabet with hand-computed expectations: (text, [(use offset, expected)], signature)
+fn raw_cases() -> Vec<(&'static str, Vec<(u32, Res)>, &'static str)> {
+    vec![
+        // `_ = e` is given a fresh local-like declaration by analyze_assign_stat even when a local `_` is visible
+        ("local _ = 1 _ = 2 print(_) ", vec![(12, Some(6)), (18, None), (24, Some(6))], "assignment-to-underscore-declares-a-local"),
+        ("_ = 2 print(_) ", vec![(0, None), (6, None), (12, None)], "assignment-to-underscore-declares-a-local"),
+    ]
+}
+
+fn compare_raw(ws: &mut VirtualWorkspace, text: &str, expect: &[(u32, Res)], sig: &str) -> Vec<Disagreement> {
+    let (_fid, obs) = observe(ws, text);
+    let mut out = Vec::new();
+    for (pos, exp) in expect {
+        let got = obs.uses.iter().find(|u| u.0 == *pos).map(|u| impl_res(&u.2));
+        if got != Some(*exp) {
+            out.push(Disagreement {
+                sig: sig.to_string(),
+                what: format!("the name at offset {} resolves to {:?} but Lua scoping selects {:?} in `{}`", pos, got.flatten(), exp, text.trim_end()),
+            });
+            break;
+        }
+    }
+    out
+}
+
 fn load_corpus(dir: &str) -> Vec<Block> {
     let mut out = Vec::new();
     if dir.is_empty() {
@@ -177,9 +202,9 @@ fn corr_line(ws: &mut VirtualWorkspace, prog: &Block) -> Value {
     let uses: Vec<Value> = obs
         .uses
         .iter()
-        .map(|(p, _, r)| match r {
-            Some((d, k)) => json!([p, d, k]),
-            None => json!([p]),
+        .map(|(p, t, r)| match r {
+            Some((d, k)) => json!([p, t, d, k]),
+            None => json!([p, t]),
         })
         .collect();
     json!({"coq": coq_block(prog), "prog": json_block(prog), "text": pr.out, "uses": uses, "tree": obs.tree, "errors": obs.parse_errors,
@@ -284,11 +309,18 @@ fn main() {
                     ws = VirtualWorkspace::new();
                 }
             }
+            let mut raw_count = 0usize;
+            for (text, expect, sig) in raw_cases() {
+                raw_count += 1;
+                for d in compare_raw(&mut ws, text, &expect, sig) {
+                    by_sig.entry(d.sig.clone()).or_insert(json!({"signature": d.sig, "what": d.what, "text": text, "prog": Value::Null, "fixed_case": true}));
+                }
+            }
             for v in by_sig.values() {
                 println!("{}", v);
             }
             let mut summary = json!({"cases": progs.len(), "distinct_nontrivial": distinct.len(), "name_uses": total_uses, "uses_resolving_to_locals": local_uses,
-                                     "declarations": total_decls, "harness_errors": harness_errors});
+                                     "declarations": total_decls, "harness_errors": harness_errors, "raw_text_cases": raw_count});
             for (k, v) in dist {
                 summary[k] = json!(v);
             }
